@@ -70,14 +70,14 @@ class World(HWorld):
 
 
 def generate(rng):
-    pool = make_pool(rng, style="comb" if rng.random() < 0.01 else None)
+    pool = make_pool(rng, style=("comb" if rng.random() < 0.5 else "huge") if rng.random() < 0.02 else None)
     values = make_values(rng)
     probes = probe_keys(rng, pool, extra=1)
     prune = rng.random() < 0.5
     cache = rng.choice([0, 1, 2, 8, 4096])
     g = HistoryGen(rng, pool, values, probes, batches=True, aborts=True, reopen=True, lookups=(0, 0))
     cmds = g.history(rng.randint(10, deep(80, 200)))
-    return {"prop": ID, "cfg": {"prune": prune, "cache": cache, "rc": rng.choice(["defaultdict", "defaultdict", "counter"])}, "cmds": cmds}
+    return {"prop": ID, "cfg": {"prune": prune, "cache": cache, "rc": rng.choice(["defaultdict", "defaultdict", "counter"]), "store": rng.choice(["min", "min", "dict"])}, "cmds": cmds}
 
 
 def execute(case, st):
